@@ -17,6 +17,10 @@ CHECKS = {
    text="Complete enumeration of a declared finite lattice of wire values against an independent struct-level codec: every value of every header field up to 16 bits (with neighbouring fields all-zero and all-one), the bit-pattern classes of the 32/48-bit fields (two's-complement boundaries, walking ones/zeros), all 32 station types, and octet-for-octet comparison of every packet the real router/BTP router originates (beacon, SHB, GBC/GAC x shapes, GUC, LS request/reply; BTP-A/B; both mobility settings; traffic classes; MIB defaults; ego positions in all four hemispheres; sequence numbers incl. wrap) with the reference assembly. Unit tests pin a handful of byte strings at one positive coordinate; this covers every field value class.",
    note="Trusted: CPython, mc/ref/gn_codec.py (written from EN 302 636-4-1 clause 9 / 302 636-5-1 clause 7). Interiors of 32/48-bit fields only by pattern classes. Sequence-number successor follows clause 8.3 (mod 2^16-1).",
    technique="exhaustive finite-domain enumeration of the real codecs and emitted packets against a reference codec"),
+ "C08": dict(level="model_checking", design="3/C08",
+   text="Explicit-state BFS over histories of the real router's receive path: crafted beacons/SHB/TSB/GBC/GAC/GUC/LS packets from several sources (and from the station's own address) with PV timestamps before, at and after the receiver clock at millisecond resolution, interleaved with clock advances around the entry lifetime, explored once at an ordinary clock value and once 10 s before the 2^32 ms timestamp wrap; after every event get_entry()/get_neighbours() are compared with a reference table (newest PV by serial order, neighbour rules, strict expiry). Plus all ordered pairs of a 32-bit timestamp lattice around 0, 2^31 and 2^32 for irreflexivity, antisymmetry, agreement with real time and the modular difference. The suite uses one patched clock value and never a skewed or wrapping timestamp.",
+   note="Trusted: CPython, RefLocT reference (mc/checks/c08.py), reference codec. Depth 4 (5 thorough); sequence numbers unique per source; stale packets from unknown sources may or may not create an entry (left open by the statement).",
+   technique="explicit-state BFS over real objects with a reference model in lock-step + exhaustive pair lattice for the timestamp order"),
 }
 
 NOT_APPLICABLE = {}
